@@ -274,6 +274,24 @@ CHECKS['C17'] = dict(
     technique='machine-checked proof (Coq) over a hand-written model + differential correspondence + real-worker exploration',
 )
 
+CHECKS['C12'] = dict(
+    text=('Proof over Server/Shutdown.v, a model of what becomes of every child process and of every parent\'s data connection when the server is '
+          'stopped, parameterised by the SHAPE of the shutdown paths which tools/py2coq regenerates from the source on every run (which registries the '
+          'finally loop of RemoteServer.run covers and whether it forces and SIGTERMs survivors, what the SIGTERM handler signals, whether the context '
+          'helper cleans up in a finally and passes SIGTERM on to its workers, whether a forced kill fabricates (False, None)): for EVERY registry (any '
+          'number of direct children and contexts holding any number of workers in any state SIGTERM can kill), both ways of stopping, every outcome of '
+          'the race inside a context helper that is stopped while forcing a worker, and the server being SIGTERMed after any number of entries because '
+          'the caller lost patience: every child is gone and every parent\'s connection has ended with the earlier outcome or an error; children able to '
+          'report say WorkerTerminatedError. Tie: real servers with 0-4 real children per scenario, /proc inspection, every parent queried under a '
+          'watchdog; steady-state scenarios compared child by child with the model.'),
+    design='5/C12',
+    note=('Weakest claim of the set, as DESIGN.md says: the truth of C12 lives in the kernel (signal delivery, reaping, TCP teardown). The theorem covers the '
+          'LOGIC (who is told to stop, by which means, in which order, under which time budget, and what the parent decodes); the reaction table of the child '
+          'classes, "shortly afterwards" (measured: <= 6 s in the check) and the start-up races are exercised on real processes only. SIGSTOPped children are '
+          'outside the quantifier. ' + COMMON_NOTE),
+    technique='machine-checked proof (Coq) over a model parameterised by shape flags regenerated from the source + real-process exploration with per-child correspondence',
+)
+
 NOT_YET = {}
 
 
